@@ -1117,3 +1117,69 @@ def unref_patterns_in_arms(f):
     if n:
         f.rewrites.append(('R1', f'{n} match arm(s): `&x` sub-patterns -> reference binding + `let x = *x_r_;` at the start of the arm', ''))
     return f
+
+
+def _balanced_end(s, open_idx):
+    """index just past the bracket that closes the one at `open_idx`"""
+    pairs = {'(': ')', '[': ']', '{': '}'}
+    depth = 0
+    for k in range(open_idx, len(s)):
+        c = s[k]
+        if c in pairs:
+            depth += 1
+        elif c in pairs.values():
+            depth -= 1
+            if depth == 0:
+                return k + 1
+    return -1
+
+
+def drop_capacity_hints(f):
+    """R6: a capacity is an allocation hint and no part of the value: `Vec::with_capacity(E)` -> `Vec::new()`;
+    a local that served only the hint (transitively) is dropped together with its defining `let`."""
+    head = 'Vec::with_capacity('
+    names, n = set(), 0
+    while True:
+        i = f.body.find(head)
+        if i < 0:
+            break
+        e = _balanced_end(f.body, i + len(head) - 1)
+        if e < 0:
+            break
+        names |= set(re.findall(r'(?<![.\w:])([a-z_]\w*)\b(?!\s*[(:!])', f.body[i + len(head):e - 1]))
+        f.body = f.body[:i] + 'Vec::new()' + f.body[e:]
+        n += 1
+    if not n:
+        return f
+    dropped = []
+    changed = True
+    while changed:
+        changed = False
+        for nm in sorted(names):
+            uses = [m.start() for m in re.finditer(r'(?<![.\w])' + re.escape(nm) + r'\b', f.body)]
+            if len(uses) != 1:
+                continue
+            m = re.search(r'let\s+(?:mut\s+)?' + re.escape(nm) + r'\b\s*(?::[^=;]+)?=', f.body)
+            if not m or not (m.start() < uses[0] < m.end()):
+                continue
+            # statement end: first `;` at bracket depth 0
+            k, depth = m.end(), 0
+            while k < len(f.body):
+                c = f.body[k]
+                if c in '([{':
+                    depth += 1
+                elif c in ')]}':
+                    depth -= 1
+                elif c == ';' and depth == 0:
+                    break
+                k += 1
+            if k >= len(f.body):
+                continue
+            names |= set(re.findall(r'(?<![.\w:])([a-z_]\w*)\b(?!\s*[(:!])', f.body[m.end():k]))
+            f.body = f.body[:m.start()] + f.body[k + 1:]
+            names.discard(nm)
+            dropped.append(nm)
+            changed = True
+            break
+    f.rewrites.append(('R6', f'{n} x `Vec::with_capacity(..)` -> `Vec::new()` (a capacity is an allocation hint)' + (f'; hint-only locals dropped: {", ".join(dropped)}' if dropped else ''), ''))
+    return f
